@@ -387,6 +387,15 @@ pub fn run_case(idents: &[Ident], idx: u64, rng: &mut Rng, thorough: bool, hist:
         let mut nontrivial = false;
         let mut all_events: Vec<u64> = vec![];
         let mut user_done = false;
+        // C11 "records accepted are exactly those at the requested distances": what the answer has delivered so far
+        // (records at a requested distance, the requester's own record aside), and whether it is over
+        let const_total = {
+            let ts: Vec<u64> = steps.iter().take(n_regular).filter_map(|s| if let Step::Nodes(t, _) = s { Some(*t) } else { None }).collect();
+            ts.windows(2).all(|w| w[0] == w[1])
+        };
+        let mut delivered: Vec<u64> = vec![];
+        let mut received_valid = 0usize;
+        let mut answer_over = false;
         for (si, st) in steps.iter().enumerate() {
             if !a.alive() {
                 failures.push(("C11".into(), "the service task ended (panic)".into()));
@@ -454,6 +463,59 @@ pub fn run_case(idents: &[Ident], idx: u64, rng: &mut Rng, thorough: bool, hist:
                 }
             } else if banned_now {
                 failures.push(("C11".into(), "responder banned on a user-designated request".into()));
+            }
+            // a request that fails (the rest of a multi-packet answer never arrived in time) is no offence: whatever
+            // the peer had sent before, a failing request never puts it on the ban list
+            if is_fail && kind != 1 {
+                let l = discv5::verif::filter::permit_ban_snapshot();
+                let ip_listed = l.ban_ips.contains_key(&p_addr.socket_addr.ip());
+                if (banned_now && !was_banned) || (ip_listed && !was_banned) {
+                    let got = injected;
+                    failures.push((
+                        "C11".into(),
+                        format!(
+                            "the responder was banned when its request timed out after {} of the announced NODES packets had arrived (every record it had sent is at a requested distance {}): its {} on the ban list",
+                            got,
+                            fmt_ds(&ds),
+                            if banned_now && !was_banned { "node id and IP address are" } else { "IP address is" }
+                        ),
+                    ));
+                }
+                hist.add(if injected > 0 && !must_be_complete { "c11:request_failed_with_a_partial_answer" } else { "c11:request_failed" });
+            }
+            // every record of a complete answer that is at a requested distance is accepted - however many there are.
+            // The answer is complete with a packet whose total is at most 1, with the last of `total` (or of the packet
+            // limit) packets, and with the packet that arrives when max_nodes_response records have been collected.
+            if kind != 1 && same_id && !is_fail && !answer_over && const_total && si < n_regular {
+                let valid: Vec<u64> = vs.iter().filter(|i| !off_distance(&recs, **i) && recs.id_of(**i) != lid).map(|i| recs.list[*i].vid).collect();
+                let valid_all = vs.iter().filter(|i| !off_distance(&recs, **i)).count();
+                delivered.extend(valid);
+                let count = injected as usize + 1; // packets before this one + 1
+                let goes_on = total > 1 && received_valid < a_max && (count as u64) < total && count < max_responses;
+                received_valid += valid_all;
+                if !goes_on {
+                    answer_over = true;
+                    let got: Vec<u64> = evs.iter().map(|e| recs.vid_of(e)).collect();
+                    if got != delivered {
+                        failures.push((
+                            "C11".into(),
+                            format!(
+                                "a complete NODES answer ({} packets) delivered {} records at the requested distances {}, {} of them were accepted (max_nodes_response {})",
+                                count,
+                                delivered.len(),
+                                fmt_ds(&ds),
+                                got.len(),
+                                a_max
+                            ),
+                        ));
+                    }
+                    if delivered.len() > 16 {
+                        hist.add("c11:complete_answer_of_more_than_16_valid_records");
+                    }
+                }
+            }
+            if is_fail {
+                answer_over = true;
             }
             if honest_stream && banned_now && !was_banned {
                 failures.push(("C11".into(), format!("honest responder (a real second service answering as the implementation prescribes) was banned; distances requested {}", fmt_ds(&ds))));
